@@ -8,9 +8,10 @@ The catalogue is /verif/mutants/catalog.py: MUTANTS = [(name, file, old, new, [k
 /repo is restored with `git checkout -- <file>` after every mutant, also on error.
 """
 import subprocess, sys, os, time, json
-sys.path.insert(0, "/verif/mutants")
+sys.path.insert(0, os.path.join(os.environ.get("MUTANT_VERIF", "/verif"), "mutants"))
 from catalog import MUTANTS
-REPO = "/repo"
+REPO = os.environ.get("MUTANT_REPO", "/repo")
+VERIF = os.environ.get("MUTANT_VERIF", "/verif")
 
 def find_commit(subject):
     log = subprocess.run(["git", "-C", REPO, "log", "--format=%h %s"], capture_output=True, text=True).stdout.splitlines()
@@ -35,12 +36,12 @@ def restore(m):
 
 def run_check(pid):
     t = time.time()
-    r = subprocess.run(["/verif/check", pid, "quick"], capture_output=True, text=True, env=dict(os.environ, VERIF_EVIDENCE_SUFFIX=".mutant"))
+    r = subprocess.run([os.path.join(VERIF, "check"), pid, "quick"], capture_output=True, text=True, env=dict(os.environ, VERIF_EVIDENCE_SUFFIX=".mutant"))
     lines = [l for l in r.stdout.splitlines() if l.startswith(("VIOLATION", "  campaign", "INCONCLUSIVE", "KNOWN"))]
     return r.returncode, time.time() - t, lines, r.stderr[-400:]
 
 def baseline():
-    r = subprocess.run("cd /repo && cargo test --workspace --no-fail-fast --offline 2>&1 | grep -E '^test result|FAILED|failed' ", shell=True, capture_output=True, text=True)
+    r = subprocess.run(f"cd {REPO} && cargo test --workspace --no-fail-fast --offline 2>&1 | grep -E '^test result|FAILED|failed' ", shell=True, capture_output=True, text=True)
     bad = [l for l in r.stdout.splitlines() if "FAILED" in l or ("failed" in l and " 0 failed" not in l)]
     return (not bad), bad[:5]
 
@@ -86,7 +87,7 @@ def main():
                 print(("KILLED " if killed else "SURVIVED ") + json.dumps(row), flush=True)
             finally:
                 restore(m)
-        json.dump(results, open("/verif/mutants/last_sweep.json", "w"), indent=1)
-        subprocess.run(["rm", "-f"] + [f"/verif/evidence/{p}.mutant.json" for p in [f"C{i:02d}" for i in range(1, 21)]])
+        json.dump(results, open(os.path.join(VERIF, "mutants", "last_sweep.json"), "w"), indent=1)
+        subprocess.run(["rm", "-f"] + [f"{VERIF}/evidence/{p}.mutant.json" for p in [f"C{i:02d}" for i in range(1, 21)]])
 
 main()
